@@ -550,9 +550,12 @@ def r207(ctx):
     env = {params[0]: S.sym("d"), params[1]: S.sym("L")}
     tr = S.Translator(env)
     rets = [r for r in walk_local(f) if isinstance(r, ast.Return) and r.value is not None]
-    if len(rets) != 1:
-        raise AnalysisError("R-20.7: pbc_dist_coordinate has not exactly one return")
-    result_name = rets[0].value.id if isinstance(rets[0].value, ast.Name) else None
+    if not rets:
+        raise AnalysisError("R-20.7: pbc_dist_coordinate returns nothing")
+    rnames = {r.value.id for r in rets if isinstance(r.value, ast.Name) and r.value.id not in params}
+    if len(rnames) > 1:
+        raise AnalysisError("R-20.7: pbc_dist_coordinate returns different result arrays (cannot decide)")
+    result_name = next(iter(rnames)) if rnames else None
 
     def bind_loop(L):
         it = L.iter
@@ -582,11 +585,25 @@ def r207(ctx):
         else:
             stores.append((value, st, list(guards)))
 
+    bexpr = {}
+
+    def _bderef(t):
+        n = 0
+        while isinstance(t, ast.Name) and t.id in bexpr and n < 5:
+            t, n = bexpr[t.id], n + 1
+        return t
+
+    def _always_returns(body):
+        return bool(body) and isinstance(body[-1], (ast.Return, ast.Raise))
+
     def visit(stmts, guards):
+        guards = list(guards)
         for st in stmts:
             if isinstance(st, ast.Assign) and len(st.targets) == 1:
                 t_ = st.targets[0]
                 if isinstance(t_, ast.Name) and t_.id != result_name:
+                    if isinstance(st.value, (ast.Compare, ast.UnaryOp)) or (isinstance(st.value, ast.Call) and last_name(st.value) in ("any", "all")):
+                        bexpr[t_.id] = st.value
                     try:
                         env[t_.id] = tr.tr(st.value)
                     except S.Undecidable:
@@ -603,8 +620,13 @@ def r207(ctx):
             elif isinstance(st, ast.If):
                 visit(st.body, guards + [(st.test, True)])
                 visit(st.orelse, guards + [(st.test, False)])
+                # an early return: what follows runs only when the test had the other outcome
+                if _always_returns(st.body) and not _always_returns(st.orelse):
+                    guards.append((st.test, False))
+                elif _always_returns(st.orelse) and not _always_returns(st.body):
+                    guards.append((st.test, True))
             elif isinstance(st, ast.Return):
-                if not isinstance(st.value, ast.Name):
+                if st.value is not None and not (isinstance(st.value, ast.Name) and st.value.id == result_name):
                     add_store(st.value, st, guards)
             elif isinstance(st, ast.Expr) and isinstance(st.value, ast.Constant):
                 continue
@@ -619,11 +641,29 @@ def r207(ctx):
         """'far' (|d| > c L), 'near' (|d| <= c L) or 'all'; returns (kind, c)."""
         kind, cval = "all", None
         for test, truth in guards:
+            test = _bderef(test)
             while isinstance(test, ast.UnaryOp) and isinstance(test.op, ast.Not):
-                test, truth = test.operand, not truth
+                test, truth = _bderef(test.operand), not truth
+            aggregate = None
+            if isinstance(test, ast.Call) and last_name(test) in ("any", "all"):
+                inner = test.args[0] if test.args else (test.func.value if isinstance(test.func, ast.Attribute) else None)
+                if inner is None:
+                    raise S.Undecidable("aggregate guard without operand")
+                aggregate, test = last_name(test), _bderef(inner)
+                while isinstance(test, ast.UnaryOp) and isinstance(test.op, (ast.Not, ast.Invert)):
+                    # any(~c) = not all(c); all(~c) = not any(c)
+                    test, truth, aggregate = test.operand, not truth, ("all" if aggregate == "any" else "any")
             if not (isinstance(test, ast.Compare) and len(test.ops) == 1):
                 raise S.Undecidable("guard is not a single comparison")
             l, r, op = test.left, test.comparators[0], test.ops[0]
+            if aggregate is not None:
+                # normalise the element test to the form |d_i| > c L_i (far_i)
+                if isinstance(op, (ast.Lt, ast.LtE)) and isinstance(l, ast.Call):
+                    # |d| <= cL  is  not far
+                    l, r, op = l, r, (ast.Gt() if isinstance(op, ast.LtE) else ast.GtE())
+                    truth, aggregate = (not truth), ("all" if aggregate == "any" else "any")
+                    # all(near) true  = any(far) false ; handled by the swap above
+                test = ast.Compare(left=l, ops=[op], comparators=[r])
             if isinstance(op, (ast.Lt, ast.LtE)):
                 l, r = r, l
                 op = ast.Gt() if isinstance(op, ast.Lt) else ast.GtE()
@@ -635,8 +675,23 @@ def r207(ctx):
             cl = S.as_L_power(rp)
             if cl is None or cl[1] != 1 or cl[0] <= 0:
                 raise S.Undecidable("guard bound is not c*L")
-            kind, cval = ("far" if truth else "near"), cl[0]
+            if aggregate == "any":
+                # any(far_i) false: every axis is near; true: nothing is known about a given axis
+                if not truth:
+                    kind, cval = "near", cl[0]
+                else:
+                    unguarded_c.append(cl[0])
+            elif aggregate == "all":
+                # all(far_i) true: every axis is far; false: nothing is known about a given axis
+                if truth:
+                    kind, cval = "far", cl[0]
+                else:
+                    unguarded_c.append(cl[0])
+            else:
+                kind, cval = ("far" if truth else "near"), cl[0]
         return kind, cval
+
+    unguarded_c = []
 
     far = near = None
     try:
@@ -667,6 +722,11 @@ def r207(ctx):
     if diff:
         raise AnalysisError(f"R-20.7: w(d + k*L) - w(d) = {S.show(diff)} could not be reduced to 0 with the equivariance rules known to the checker (cannot decide)")
     ctx.ok(rid, node, f"w(d) = {S.show(e)} satisfies w(d + k*L) = w(d) for every integer k (rounding commutes with integer shifts; L*(1/L) = 1)")
+    # (2b) open axes: the wrap formula is evaluated for an axis only when that axis is beyond half its length
+    if kind == "all":
+        ctx.bad(rid, node, f"the wrap formula `{short(node, 60)}` is evaluated for every axis without a per-axis test |d_i| > L_i/2 (element-wise `if` or numpy.where selection): on an open axis, for which the engines report an infinite box length (TurtleMD Box(periodic=[..., False]), AMS), it computes rint(d/inf)*inf = 0*inf = nan, so the periodic order parameters return nan instead of the unwrapped component", construct="wrap formula evaluated without per-axis guard")
+        return
+    ctx.ok(rid, node, "the wrap formula is selected per axis by |d_i| > c*L_i: an axis with infinite length keeps its component")
     # (3) the unwrapped region
     if near is not None:
         ne, nnode, nc = near
@@ -720,7 +780,9 @@ VARIANTS = [
     B("c20-wrap-threshold-three-quarters", ORDERP, "        if np.abs(distance[i]) > 0.5 * length:", "        if np.abs(distance[i]) > 0.75 * length:", "R-20.7"),
     B("c20-wrap-floor", ORDERP, "            pbcdist[i] = distance[i] - np.rint(distance[i] * ilength) * length", "            pbcdist[i] = distance[i] - np.floor(distance[i] * ilength) * length", "R-20.7"),
     B("c20-wrap-near-branch-zero", ORDERP, "        else:\n            pbcdist[i] = distance[i]\n    return pbcdist", "        else:\n            pbcdist[i] = 0.0\n    return pbcdist", "R-20.7"),
-    K("c20-keep-wrap-vectorised", ORDERP, "    box_ilengths = 1.0 / box_lengths\n    pbcdist = np.zeros(distance.shape)\n    for i, (length, ilength) in enumerate(zip(box_lengths, box_ilengths)):\n        if np.abs(distance[i]) > 0.5 * length:\n            pbcdist[i] = distance[i] - np.rint(distance[i] * ilength) * length\n        else:\n            pbcdist[i] = distance[i]\n    return pbcdist", "    return distance - np.rint(distance / box_lengths) * box_lengths"),
+    B("c20-wrap-unguarded-vectorised", ORDERP, "    box_ilengths = 1.0 / box_lengths\n    pbcdist = np.zeros(distance.shape)\n    for i, (length, ilength) in enumerate(zip(box_lengths, box_ilengths)):\n        if np.abs(distance[i]) > 0.5 * length:\n            pbcdist[i] = distance[i] - np.rint(distance[i] * ilength) * length\n        else:\n            pbcdist[i] = distance[i]\n    return pbcdist", "    return distance - np.rint(distance / box_lengths) * box_lengths", "R-20.7", why="was kept as a preserving variant until seed C20_i showed that the per-axis guard protects open axes (infinite length): 0*inf = nan"),
+    B("c20-wrap-global-fast-path", ORDERP, "    box_ilengths = 1.0 / box_lengths\n    pbcdist = np.zeros(distance.shape)\n    for i, (length, ilength) in enumerate(zip(box_lengths, box_ilengths)):\n        if np.abs(distance[i]) > 0.5 * length:\n            pbcdist[i] = distance[i] - np.rint(distance[i] * ilength) * length\n        else:\n            pbcdist[i] = distance[i]\n    return pbcdist", "    if not np.any(np.abs(distance) > 0.5 * box_lengths):\n        return distance.copy()\n    box_ilengths = 1.0 / box_lengths\n    return distance - np.rint(distance * box_ilengths) * box_lengths", "R-20.7", control=True, why="seeded C20_i"),
+    K("c20-keep-wrap-fast-path-then-where", ORDERP, "    box_ilengths = 1.0 / box_lengths\n    pbcdist = np.zeros(distance.shape)\n    for i, (length, ilength) in enumerate(zip(box_lengths, box_ilengths)):\n        if np.abs(distance[i]) > 0.5 * length:\n            pbcdist[i] = distance[i] - np.rint(distance[i] * ilength) * length\n        else:\n            pbcdist[i] = distance[i]\n    return pbcdist", "    far = np.abs(distance) > 0.5 * box_lengths\n    if not np.any(far):\n        return distance.copy()\n    box_ilengths = 1.0 / box_lengths\n    return np.where(far, distance - np.rint(distance * box_ilengths) * box_lengths, distance)"),
     K("c20-keep-wrap-floor-half", ORDERP, "            pbcdist[i] = distance[i] - np.rint(distance[i] * ilength) * length", "            pbcdist[i] = distance[i] - length * np.floor(distance[i] / length + 0.5)"),
     K("c20-keep-wrap-where", ORDERP, "    pbcdist = np.zeros(distance.shape)\n    for i, (length, ilength) in enumerate(zip(box_lengths, box_ilengths)):\n        if np.abs(distance[i]) > 0.5 * length:\n            pbcdist[i] = distance[i] - np.rint(distance[i] * ilength) * length\n        else:\n            pbcdist[i] = distance[i]\n    return pbcdist", "    pbcdist = np.where(np.abs(distance) > 0.5 * box_lengths, distance - np.round(distance * box_ilengths) * box_lengths, distance)\n    return pbcdist"),
     B("c20-puckering-center-after-loop", ORDERP, "        for i in range(6):\n            pos[i, :] -= center", "        for i in range(6):\n            pass\n        pos[i, :] -= center", "R-20.6", control=True),
